@@ -7,7 +7,7 @@ CLAIM = {
           'requested sets, widths, decimals and rational values: same_channels (curve section = ~A heading = every data '
           'row = channel 0 + requested-and-present, same_channels_separate for the writers called one by one, specSel_mem_iff), fields_separated / heading_fields_separated (a row '
           'tokenises on blanks into exactly its value texts whatever the width), print_error (|printed - v| <= 1/2 10^-d, '
-          'round-half-even) and print_int_exact, rows_count, data_row_tokens, reduce_mem. The model is tied to the source '
+          'round-half-even) and print_int_exact, rows_count, data_row_tokens, reduce_mem; composition with the reader model of C09: roundtrip_row_tokens, roundtrip_value, roundtrip_int. The model is tied to the source '
           'on every run by a correspondence (channel lists, heading line, every data row, tokenising, reductions, the '
           'float/int formatting primitive) and the property is evaluated end to end on the implementation '
           '(write_curve_and_array_section_to_las -> LASRead) with exact Fraction arithmetic. Proof is the right level for '
